@@ -5,7 +5,10 @@ use bevy::prelude::*;
 use crossbeam::channel::{Receiver, Sender};
 
 //standard shortcuts
+#[cfg(not(ukoehb_bevy_cobweb_verif))]
 use std::sync::Arc;
+#[cfg(ukoehb_bevy_cobweb_verif)]
+use crate::verif::sync::Arc;
 
 //-------------------------------------------------------------------------------------------------------------------
 //-------------------------------------------------------------------------------------------------------------------
@@ -20,6 +23,8 @@ impl Drop for AutoDespawnSignalInner
 {
     fn drop(&mut self)
     {
+        #[cfg(ukoehb_bevy_cobweb_verif)]
+        crate::verif::yield_point();
         let _ = self.sender.send(self.entity);
     }
 }
@@ -32,6 +37,8 @@ pub fn garbage_collect_entities(world: &mut World)
 {
     while let Some(entity) = world.resource::<AutoDespawner>().try_recv()
     {
+        #[cfg(ukoehb_bevy_cobweb_verif)]
+        crate::verif::yield_point();
         world.get_entity_mut(entity).ok().map(|e| e.despawn_recursive());
     }
 }
